@@ -1,3 +1,4 @@
+import GlareModel.Core.CsvInfer
 import GlareModel.Core.Csv
 
 /-! # C17 — Reading a CSV file returns the RFC-4180 records -/
@@ -69,5 +70,130 @@ theorem last_record_without_newline : run 44 34 [[97, 44, 98, 10, 99, 44, 100]] 
 
 /-- Quoted fields: embedded delimiter, newline and doubled quote. -/
 example : run 44 34 [[34, 97, 44, 10, 34, 34, 98, 34, 44, 99, 10]] = [[[97, 44, 10, 34, 98], [99]]] := by decide
+
+/-! ## Type inference (`schema.rs`)
+
+Model: `Core/CsvInfer.lean`, value parsers abstract. -/
+section Inference
+open GlareModel.CsvInfer
+
+/-- A value only ever pushes a candidate up the ladder. -/
+theorem update_widens (p : Parsers) (c : Cand) (s : String) : c.rank ≤ (update p c s).rank := by
+  unfold update
+  split
+  · exact Nat.le_refl _
+  · cases c <;> simp only <;> (repeat' split) <;> simp [Cand.rank]
+
+theorem fold_widens (p : Parsers) (vals : List String) (c : Cand) : c.rank ≤ (vals.foldl (update p) c).rank := by
+  induction vals generalizing c with
+  | nil => exact Nat.le_refl _
+  | cons v vs ih => exact Nat.le_trans (update_widens p c v) (ih _)
+
+/-- **Sampling more rows can only widen a column's type**, never narrow it. -/
+theorem infer_monotone (p : Parsers) (vals more : List String) :
+    (inferCol p vals).rank ≤ (inferCol p (vals ++ more)).rank := by
+  unfold inferCol
+  rw [List.foldl_append]
+  exact fold_widens p more _
+
+/-- Empty fields (NULLs) never influence the inferred type. -/
+theorem update_empty (p : Parsers) (c : Cand) : update p c "" = c := by
+  simp [update]
+
+/-- The parsers are *nested* when every boolean literal is an integer literal and every integer
+literal a float literal. The second half holds for the engine's parsers, the first does not
+(`true` is not an integer). -/
+def Nested (p : Parsers) : Prop := (∀ s, p.okB s = true → p.okI s = true) ∧ (∀ s, p.okI s = true → p.okF s = true)
+
+/-- The candidate accepts `s` or is one of the catch-alls above Float64. -/
+def Accepts (p : Parsers) (c : Cand) (s : String) : Prop :=
+  match c with
+  | .boolean => p.okB s = true
+  | .int64 => p.okI s = true
+  | .float64 => p.okF s = true
+  | .timestamp => True
+  | .utf8 => True
+
+theorem accepts_widen (p : Parsers) (hn : Nested p) (c c' : Cand) (s : String)
+    (h : Accepts p c s) (hr : c.rank ≤ c'.rank) : Accepts p c' s := by
+  obtain ⟨h1, h2⟩ := hn
+  cases c <;> cases c' <;> simp_all [Accepts, Cand.rank]
+
+theorem update_accepts (p : Parsers) (c : Cand) (s : String) (hs : s.isEmpty = false) :
+    Accepts p (update p c s) s := by
+  unfold update
+  simp only [hs]
+  cases c <;> simp only <;> (repeat' split) <;> simp_all [Accepts]
+
+/-- **With nested parsers the ladder is sound**: the inferred candidate accepts every non-empty
+sampled value (or is text). -/
+theorem infer_fits_when_nested (p : Parsers) (hn : Nested p) (vals : List String) (c : Cand) :
+    ∀ v ∈ vals, v.isEmpty = false → Accepts p (vals.foldl (update p) c) v := by
+  induction vals generalizing c with
+  | nil => intro v hv; cases hv
+  | cons x xs ih =>
+    intro v hv hne
+    rcases List.mem_cons.mp hv with h | h
+    · subst h
+      exact accepts_widen p hn _ _ v (update_accepts p c v hne) (fold_widens p xs _)
+    · exact ih _ v h hne
+
+/-- A parser family shaped like the engine's: `true` is a boolean literal but not a number, `1` is a
+number but not a boolean literal. -/
+def sample : Parsers :=
+  { okB := fun s => s == "true" || s == "false",
+    okI := fun s => s == "1" || s == "2",
+    okF := fun s => s == "1" || s == "2" || s == "1.5" }
+
+/-- **The ladder is unsound for the engine's parsers**: a column holding `true` then `1` is inferred
+as Int64, which does not accept `true` (reading the file then fails on a sampled value), while the
+narrowest type that fits both values is text; and the answer depends on the order of the rows. -/
+theorem ladder_unsound_bool_then_int :
+    inferCol sample ["true", "1"] = .int64 ∧ isValid sample .int64 "true" = false ∧
+    narrowestFitting sample ["true", "1"] = .utf8 ∧ inferCol sample ["1", "true"] = .utf8 := by decide
+
+
+theorem isValid_accepts (p : Parsers) (c : Cand) (s : String) (h : isValid p c s = true) : Accepts p c s := by
+  cases c <;> simp_all [isValid, Accepts]
+
+/-- **The repaired inference is sound for any parsers**: the inferred type accepts every non-empty
+sampled value (text accepts everything). -/
+theorem inferFixed_fits (p : Parsers) (vals : List String) :
+    ∀ v ∈ vals, v.isEmpty = false → Accepts p (inferColFixed p vals) v := by
+  intro v hv hne
+  unfold inferColFixed
+  simp only
+  split
+  · rename_i hall
+    have := List.all_eq_true.mp hall v hv
+    simp [hne] at this
+    exact isValid_accepts p _ v this
+  · simp [Accepts]
+
+/-- The ladder never climbs past a type that fits: if candidate `d` (boolean, integer or float)
+accepts every non-empty sampled value, the ladder ends at `d` or below. -/
+theorem ladder_never_overshoots (p : Parsers) (d : Cand) (hd : d.rank ≤ 2) (vals : List String) (c : Cand)
+    (hc : c.rank ≤ d.rank) (hfit : ∀ v ∈ vals, v.isEmpty = false → isValid p d v = true) :
+    (vals.foldl (update p) c).rank ≤ d.rank := by
+  induction vals generalizing c with
+  | nil => exact hc
+  | cons x xs ih =>
+    simp only [List.foldl_cons]
+    refine ih _ ?_ (fun v hv => hfit v (List.mem_cons_of_mem _ hv))
+    have hx := hfit x (List.mem_cons_self ..)
+    unfold update
+    split
+    · exact hc
+    · rename_i hne
+      have hne' : x.isEmpty = false := by simpa using hne
+      have hv := hx hne'
+      cases hb : p.okB x <;> cases hi : p.okI x <;> cases hf : p.okF x <;>
+        cases c <;> cases d <;> simp_all [Cand.rank, isValid]
+
+/-- The repaired inference on the witness of `ladder_unsound_bool_then_int`: text, in both orders. -/
+example : inferColFixed sample ["true", "1"] = .utf8 ∧ inferColFixed sample ["1", "true"] = .utf8 ∧
+    inferColFixed sample ["1", "", "2"] = .int64 ∧ inferColFixed sample ["1", "1.5"] = .float64 := by decide
+
+end Inference
 
 end GlareModel.Props.C17
